@@ -153,6 +153,9 @@ func (dist *ParetoDistribution) ImportConfig(config ConfigDistribution, t Scalar
   if parameters, ok := config.GetParametersAsFloats(); !ok {
     return fmt.Errorf("invalid config file")
   } else {
+    if len(parameters) != 2 {
+      return fmt.Errorf("invalid config file")
+    }
     lambda  := NewScalar(t, parameters[0])
     kappa   := NewScalar(t, parameters[1])
 
